@@ -6,6 +6,14 @@ TECH = "bounded exhaustive enumeration (stateless explicit-state exploration of 
 
 # property -> (category, text, note, technique)
 CHECKS = {
+ "C06": ("model_checking",
+  "Explicit enumeration of ALL call sequences up to depth 3 (4) over a 47-operation alphabet of the compression API (deflate with every flush value and boundary buffer sizes, params, tune, prime, dictionary, header, pending, bound, reset, reset-keep, copy, get-dictionary, end) on a lattice of configurations incl. illegal ones, each finished by the Finish tail; the same through the safe Rust wrappers under catch_unwind; long repetitions of single operations; C01's schedule families re-run with guard pages in both placements. Oracle: no signal/panic, documented status, cursors in bounds, hook-H3 structural invariants after every call, Finish reaches stream end within the call cap.",
+  "Trusted: hook H3 (read-only). deflatePrime is only issued before the first deflate call (its documented precondition). Known finding F2 (deflateResetKeep with unconsumed lookahead, shared with zlib-ng) is reported as KNOWN-FINDING.",
+  "explicit enumeration of operation sequences up to a depth bound over the real code, invariant checking"),
+ "C19": ("model_checking",
+  "Raw corpus streams with every truncation and bit flip and all short strings x windowBits 8..15 x input-callback slicings (all compositions for <= 9 bytes, every single split, 1-byte slices, end-of-input at every position) x output-callback abort at every index, window and slices in guard-paged arenas; safety on everything, and equality with inflate (bytes, verdict, unused input) wherever the strict reference decoder finds all back-references inside min(window, produced bytes).",
+  "Trusted: R2. For references into the unwritten part of the caller's window only safety/termination are required.",
+  TECH),
  "C02": ("model_checking",
   "Bounded exhaustive exploration of the decoder on untrusted bytes: the whole R4 corpus with every truncation / single-bit flip / trailing garbage and all strings <= 2 (3) bytes, through streaming inflate under boundary schedules (0-/1-byte buffers, fast-path thresholds), uncompress/uncompress2, the Rust wrappers and header capture, every buffer in guard-paged arenas in both placements and state in a guard-paged garbage-filled allocator; a signal is attributed to the case by the explorer. Oracle: no crash/panic, documented status, cursors in bounds, bounded calls, progress.",
   "Trusted: the harness; guard pages see every access beyond a buffer end/start but not overruns inside one allocation smaller than the allocator slack. Not covered: multi-fault corruptions, strings outside the corpus.",
